@@ -28,6 +28,13 @@ def roundtrip_text(model):
     return DM(model.json()), DM(model.xml())
 
 
+def ufac(uc, unit):
+    """unit factor under the CURRENT working units, taken from the unit table itself (independent of uc.parse and of anything
+    it may cache): plain Python evaluation of the expression over the table entries"""
+    if unit is None or unit == 'scaled': return 1
+    return eval(unit.replace('^', '**'), {'__builtins__': {}}, dict(uc.unit))
+
+
 def phys_same(read, orig, p1, p2, S=1e6):
     """read / p2 == orig / p1 (cross-multiplied; unit factors are positive)"""
     return eq(read * p1, orig * p2, S) if (sx.is_sym(read) or sx.is_sym(orig) or sx.is_sym(p1) or sx.is_sym(p2)) else abs(read * p1 - orig * p2) <= 1e-9 * max(abs(orig * p2), 1e-300)
@@ -39,7 +46,7 @@ def h_value(shape, unit):
         vals = np.empty(shape, dtype=object)
         for k in np.ndindex(shape): vals[k] = var('v' + ''.join(map(str, k)), -100, 100)
         arr = sa(vals) if shape else vals[()]
-        p1 = uc.parse(unit)
+        p1 = ufac(uc, unit)
         m = uc.model(arr, unit)
         ob = []
         want_keys = ['value'] + (['shape'] if len(shape) > 1 else []) + (['unit'] if unit is not None else [])
@@ -51,7 +58,7 @@ def h_value(shape, unit):
         if not sx.symbolic_mode():
             models += list(roundtrip_text(m))
         uc = install('_w2')
-        p2 = uc.parse(unit)
+        p2 = ufac(uc, unit)
         for n, mm in enumerate(models):
             back = np.asarray(uc.value_unit(mm), dtype=object)
             ob.append((f'shape after reading ({["model", "json", "xml"][n]})', np.shape(back) == shape))
@@ -78,9 +85,9 @@ def h_box(unit):
         import atomman as am
         uc = install('')
         box, V, O = mk_box()
-        p1 = uc.parse(unit)
+        p1 = ufac(uc, unit)
         m = box.model(length_unit=unit)
-        uc = install('_w2'); p2 = uc.parse(unit)
+        uc = install('_w2'); p2 = ufac(uc, unit)
         new = am.Box(model=m)
         ob = []
         nV = new.vects; nO = new.origin
@@ -106,12 +113,12 @@ def h_system(pos_unit, box_unit):
         E = [var(f'e{k}', -5, 5) for k in range(2)]
         s = am.System(atoms=am.Atoms(pos=sa(P), atype=[2, 1], force2=sa(F), energy=sa(E), count=np.array([4, 6])), box=box, pbc=(True, False, True), symbols=['Al', None], masses=[26.98, None])
         pu = {'atype': None, 'pos': pos_unit, 'force2': None, 'energy': 'eV', 'count': None}
-        pL1 = uc.parse(pos_unit if pos_unit != 'scaled' else None); pB1 = uc.parse(box_unit); pE1 = uc.parse('eV')
+        pL1 = ufac(uc, pos_unit); pB1 = ufac(uc, box_unit); pE1 = ufac(uc, 'eV')
         m = s.model(box_unit=box_unit, prop_unit=pu)
         ob = [('periodic flags stored', list(m['atomic-system']['periodic-boundary-condition']) == [True, False, True])]
         models = [m] + (list(roundtrip_text(m)) if not sx.symbolic_mode() else [])
         uc = install('_w2')
-        pL2 = uc.parse(pos_unit if pos_unit != 'scaled' else None); pB2 = uc.parse(box_unit); pE2 = uc.parse('eV')
+        pL2 = ufac(uc, pos_unit); pB2 = ufac(uc, box_unit); pE2 = ufac(uc, 'eV')
         for n, mm in enumerate(models):
             tag = ['model', 'json', 'xml'][n]
             new = am.System(model=mm)
@@ -147,9 +154,9 @@ def h_elastic(unit, crystal_system):
             for j in range(i, 6):
                 C[i][j] = C[j][i] = var(f'c{i+1}{j+1}', 1, 1000) if (i == j or (i < 3 and j < 3)) else var(f'c{i+1}{j+1}', -1000, 1000, deadzone=0.01)
         ec = am.ElasticConstants(Cij=sa(C))
-        p1 = uc.parse(unit)
+        p1 = ufac(uc, unit)
         m = ec.model(unit=unit, crystal_system=crystal_system)
-        uc = install('_w2'); p2 = uc.parse(unit)
+        uc = install('_w2'); p2 = ufac(uc, unit)
         new = am.ElasticConstants(model=m)
         c = new.Cij
         ob = []
@@ -164,12 +171,12 @@ def cases(tier, seed=0):
     cs = []
     for shape in ((), (3,), (2, 2), (2, 3, 3)):
         for unit in ('angstrom', 'eV/angstrom^3', None) if shape in ((), (2, 2)) else ('GPa', None):
-            cs.append(Case(f'value_{"x".join(map(str, shape)) or "scalar"}_{str(unit).replace("/", "_per_").replace("^", "")}', h_value(shape, unit), bind=BIND, budget_s=150, timeout_ms=20000,
+            cs.append(Case(f'value_{"x".join(map(str, shape)) or "scalar"}_{str(unit).replace("/", "_per_").replace("^", "")}', h_value(shape, unit), bind=BIND, reload=('atomman.unitconvert',), budget_s=150, timeout_ms=20000,
                            descr=f'uc.model / uc.value_unit, shape {shape}, unit {unit}, written and read under different working units'))
     for unit in ('angstrom', 'nm'):
-        cs.append(Case(f'box_{unit}', h_box(unit), bind=BIND, budget_s=150, timeout_ms=20000, descr=f'Box.model / Box(model=), length_unit {unit}'))
+        cs.append(Case(f'box_{unit}', h_box(unit), bind=BIND, reload=('atomman.unitconvert',), budget_s=150, timeout_ms=20000, descr=f'Box.model / Box(model=), length_unit {unit}'))
     for pu, bu in (('angstrom', 'angstrom'), ('scaled', 'nm'), ('nm', 'angstrom')):
-        cs.append(Case(f'system_pos-{pu}_box-{bu}', h_system(pu, bu), bind=BIND, budget_s=170, timeout_ms=20000, weight=2, descr=f'System.model / System(model=): positions in {pu}, box in {bu}'))
+        cs.append(Case(f'system_pos-{pu}_box-{bu}', h_system(pu, bu), bind=BIND, reload=('atomman.unitconvert',), budget_s=170, timeout_ms=20000, weight=2, descr=f'System.model / System(model=): positions in {pu}, box in {bu}'))
     if tier == 'thorough':
-        cs.append(Case('elastic_GPa', h_elastic('GPa', 'triclinic'), bind=BIND, budget_s=900, timeout_ms=60000, descr='ElasticConstants.model / ElasticConstants(model=), unit GPa'))
+        cs.append(Case('elastic_GPa', h_elastic('GPa', 'triclinic'), bind=BIND, reload=('atomman.unitconvert',), budget_s=900, timeout_ms=60000, descr='ElasticConstants.model / ElasticConstants(model=), unit GPa'))
     return cs
